@@ -20,7 +20,8 @@ RULE = (
     "cases = (backend, seeded sequence of 25-50 EVENT submissions mixing valid events of every kind class, exact "
     "resubmissions, newer/older/equal-timestamp versions of replaceable addresses, deletions (own, foreign, unknown, "
     "malformed e tags), unauthentic corruptions, tags of up to 2000 items and values up to 64 kB, created_at/kind in "
-    "{-1,0,1,2^31-1,2^31,2^32-1,2^32,2^63-1,2^63}). Every step is judged with a fresh dump. Non-trivial = a step whose "
+    "{-1,0,1,2^31-1,2^31,2^32-1,2^32,2^63-1,2^63}); plus bursts of 60-200 submissions followed at once by an orderly close "
+    "and a re-open of the same store). Every step is judged with a fresh dump. Non-trivial = a step whose "
     "oracle clause carried an obligation (OK=true retrievability, OK=false no-trace with an id, must-accept, "
     "resubmission); distinct = distinct (backend, step class, canonical event shape)."
 )
@@ -30,7 +31,7 @@ ASSUMPTIONS = [
     "LMDB backend over /verif/shim; SQL = SQLite",
 ]
 MIN_NONTRIVIAL = {"quick": 150, "thorough": 400}
-REQUIRED_COUNTERS = ["clause.ok_true_retrievable", "clause.ok_false_no_trace", "clause.must_accept", "clause.resubmission", "clause.one_ok"]
+REQUIRED_COUNTERS = ["clause.ok_true_retrievable", "clause.ok_false_no_trace", "clause.must_accept", "clause.resubmission", "clause.one_ok", "clause.ok_true_retrievable_after_restart"]
 SHARD_TIMEOUT = {"quick": 500, "thorough": 3000}
 EXTREMES = [-1, 0, 1, 2 ** 31 - 1, 2 ** 31, 2 ** 32 - 1, 2 ** 32, 2 ** 63 - 1, 2 ** 63]
 
@@ -42,6 +43,7 @@ def plan(tier, seed):
     for b in ("sql", "lmdb"):
         for name in ("t", "expiration", "delegation", "é"):
             out.append({"backend": b, "case_seed": seed, "sweep": name})
+        out.append({"backend": b, "case_seed": seed * 7919, "restart": 2 if tier == "quick" else 8})
     return out
 
 
@@ -53,6 +55,64 @@ def sweep_sequence(name):
         ev = ref.make_event(key, kind=1, created_at=gen.T0 + i, tags=[[name, "s" * n]], content=subm.token("sw"))
         steps.append({"cls": "big/key-limit-sweep/%s" % name, "raw": ev})
     return steps
+
+
+async def run_restart(backend, counters, seed):
+    """
+    Acknowledged is acknowledged: a burst of submissions, an ORDERLY shutdown right behind the last OK frame
+    (storage.close(), as the application's shutdown hook does), a new storage on the same files - every event
+    that was answered OK=true is retrievable, by dump and by REQ.
+    """
+    import shutil
+
+    r = random.Random(seed)
+    scratch = env.scratch("vf-c06-restart-")
+    viols, nontrivial = [], []
+    clause = counters.setdefault("clause", {})
+    key = ref.key_from_seed("c06-restart")
+    acked = []
+    try:
+        rig = R.Rig(backend=backend, config={"analysis_delay": 0}, scratch_dir=scratch)
+        await rig.start()
+        try:
+            conn = rig.connect("burst")
+            n0 = rig.rec.n
+            evs = []
+            for i in range(r.choice([60, 120, 200])):
+                tags = [["t", "w%d-%d" % (i, j)] for j in range(r.choice([0, 5, 40]))]
+                evs.append(ref.make_event(key, kind=1, created_at=gen.T0 + i, tags=tags, content="restart %d %d" % (seed, i)))
+            for e in evs:
+                conn.feed(["EVENT", e])
+            await conn.processed(timeout=120)
+            oks = {f[1]: f[2] for _, f in R.ok_frames(conn, n0) if len(f) > 2}
+            acked = [e for e in evs if oks.get(e["id"]) is True]
+            counters["restart_backlog_at_close"] = counters.get("restart_backlog_at_close", 0) + (0 if rig.writer_idle() else 1)
+        finally:
+            await rig.close()
+        rig2 = R.Rig(backend=backend, config={"analysis_delay": 0}, scratch_dir=scratch)
+        await rig2.start(create_schema=False)
+        try:
+            stored = dump.stored_events(dump.dump(rig2))
+            clause["ok_true_retrievable_after_restart"] = clause.get("ok_true_retrievable_after_restart", 0) + len(acked)
+            counters["steps"] = counters.get("steps", 0) + len(acked)
+            nontrivial.append(h([backend, "restart", seed, len(acked)]))
+            lost = [e for e in acked if e["id"] not in stored]
+            if lost:
+                viols.append({"key": "%s/ok-true/lost/after-orderly-restart" % backend,
+                              "msg": "[%s] %d of %d events acknowledged OK=true right before an orderly close are gone after re-opening the store (e.g. %s)"
+                                     % (backend, len(lost), len(acked), lost[0]["id"][:12]), "replay": {"backend": backend, "mode": "restart", "seed": seed}})
+            else:
+                conn2 = rig2.connect("after")
+                sample = r.sample(acked, min(5, len(acked)))
+                ans = await qcore.run_req(rig2, conn2, [{"ids": [e["id"] for e in sample]}])
+                if {e.get("id") for e in ans["events"]} != {e["id"] for e in sample}:
+                    viols.append({"key": "%s/ok-true/not-served/after-orderly-restart" % backend, "msg": "[%s] events acknowledged before the restart are stored but not returned by REQ ids" % backend,
+                                  "replay": {"backend": backend, "mode": "restart", "seed": seed}})
+        finally:
+            await rig2.close()
+    finally:
+        shutil.rmtree(scratch, ignore_errors=True)
+    return viols, nontrivial
 
 
 def resign(ev, key):
@@ -320,6 +380,11 @@ def run_shard(spec):
         viols.extend(v)
         nontrivial.extend(h([spec["backend"], "sweep", spec["sweep"], i]) for i in range(len(steps)))
         classes["key-limit-sweep"] = len(steps)
+    for j in range(spec.get("restart", 0)):
+        v, nt = R.run(run_restart, spec["backend"], counters, spec["case_seed"] + j)
+        viols.extend(v)
+        nontrivial.extend(nt)
+        classes["restart"] = classes.get("restart", 0) + 1
     for s in range(spec.get("seqs", 0)):
         seq_seed = spec["case_seed"] * 131 + s
         steps = gen_sequence(seq_seed, r.randint(25, 50))
@@ -336,11 +401,14 @@ def run_shard(spec):
         if seen[v["key"]] <= 1:
             out.append(v)
     counters["violations_by_key"] = seen
-    return {"evaluations": counters.get("submissions", 0), "nontrivial": sorted(set(nontrivial)), "counters": counters,
+    return {"evaluations": counters.get("submissions", 0) + counters.get("steps", 0), "nontrivial": sorted(set(nontrivial)), "counters": counters,
             "coverage": {"backends": {spec["backend"]: 1}, "step_classes": classes}, "violations": out, "samples": samples[:2], "inconclusive": []}
 
 
 def replay(rp, spec):
     counters = {}
+    if rp.get("mode") == "restart":
+        v, nt = R.run(run_restart, rp["backend"], counters, rp["seed"])
+        return {"evaluations": 1, "nontrivial": nt, "counters": counters, "violations": v, "samples": [], "inconclusive": []}
     v, nt, sm = R.run(run_sequence, rp["backend"], rp["steps"], counters, 0)
     return {"evaluations": len(rp["steps"]), "nontrivial": nt, "counters": counters, "violations": v, "samples": [], "inconclusive": []}
